@@ -114,6 +114,59 @@ func gen(g *vh.Gen) {
 			g.Emit("scan", st, fmt.Sprint(p), b, genInj(g, st, adds, names, p), "-")
 		}
 	}
+	// id reuse: while the scanner holds a snapshot of a mailbox, another client removes every expired
+	// message of it that is still there (or purges it) and fresh mail arrives — before the scan's first
+	// removal and between removals. The fresh mail must survive (handles / ids are never reused).
+	for i := 0; i < g.N(40, 1500); i++ {
+		p := periods[1+g.Intn(len(periods)-1)]
+		nb := 1 + g.Intn(3)
+		var parts []string
+		var inj []string
+		pos := fmt.Sprintf("r%d", 1+g.Intn(3))
+		if g.Chance(0.5) {
+			pos = "r1"
+		}
+		perm := g.Perm(len(pool))
+		for b := 0; b < nb; b++ {
+			mb := pool[perm[b]]
+			m := 1 + g.Intn(4)
+			var ages []string
+			var exp []int
+			allExpired := g.Chance(0.7)
+			for j := 0; j < m; j++ {
+				e := allExpired || g.Chance(0.5)
+				a := age(g, p, e)
+				if a < 0 {
+					a, e = age(g, p, true), true
+				}
+				if e {
+					exp = append(exp, j)
+				}
+				ages = append(ages, fmt.Sprint(a))
+			}
+			parts = append(parts, vh.HS(mb)+":"+strings.Join(ages, ","))
+			if len(exp) == 0 {
+				continue
+			}
+			if g.Chance(0.25) {
+				inj = append(inj, pos+"/purge:"+vh.HS(mb))
+			} else {
+				for _, k := range exp {
+					inj = append(inj, fmt.Sprintf("%s/rm:%s:%d", pos, vh.HS(mb), k))
+				}
+			}
+			for n := 1 + g.Intn(2); n > 0; n-- {
+				inj = append(inj, pos+"/add:"+vh.HS(mb))
+			}
+		}
+		in := "-"
+		if len(inj) > 0 {
+			in = strings.Join(inj, ",")
+		}
+		for _, st := range []string{"mem", "file"} {
+			g.Emit("scan", st, fmt.Sprint(p), strings.Join(parts, ";"), in, "-")
+		}
+	}
 	// cancellation at a callback boundary (with and without interference)
 	for i := 0; i < g.N(15, 250); i++ {
 		p := periods[1+g.Intn(len(periods)-1)]
